@@ -36,6 +36,8 @@ def main():
     demo = open(os.path.join(out, 'demo_test.rs')).read()
     meta = json.load(open(os.path.join(out, 'meta.json')))
     env = 'CARGO_TARGET_DIR=%s/target ' % wt
+    mj = json.dumps(meta).lower()
+    feat = ' --features "transaction acceptor"' if ('transaction' in mj and 'feature' in mj) else ''
     ran = []
     res = dict(confirmed=None)
     prev = os.path.join(ROOT, 'seeded', sid, 'meta.json')
@@ -53,12 +55,12 @@ def main():
         tests_ok = len(passed) == 3 and [int(p[1]) for p in passed] in ([1, 0, 0], [0, 0, 0]) and int(passed[0][0]) >= 44
         target, filt = append_demo(wt, demo)
         pkg = target.split('/')[0]
-        rc1, o1 = sh(env + 'cargo test -p %s --offline --lib %s 2>&1 | grep -E "^test |test result|error" | head -20' % (pkg, filt), wt)
+        rc1, o1 = sh(env + 'cargo test -p %s%s --offline --lib %s 2>&1 | grep -E "^test |test result|error" | head -20' % (pkg, feat, filt), wt)
         fails_with = 'FAILED' in o1 or 'failed' in o1 and '0 failed' not in o1
         ran.append('with patch: demo => ' + ' | '.join(o1.strip().split('\n')[:6]))
         sh('git checkout -- .', wt)
         append_demo(wt, demo)
-        rc2, o2 = sh(env + 'cargo test -p %s --offline --lib %s 2>&1 | grep -E "^test |test result|error" | head -20' % (pkg, filt), wt)
+        rc2, o2 = sh(env + 'cargo test -p %s%s --offline --lib %s 2>&1 | grep -E "^test |test result|error" | head -20' % (pkg, feat, filt), wt)
         m = re.search(r'test result: ok\. (\d+) passed; 0 failed', o2)
         passes_without = bool(m and int(m.group(1)) >= 1)
         ran.append('without patch: demo => ' + ' | '.join(o2.strip().split('\n')[:6]))
